@@ -260,7 +260,7 @@ def run(ctx):
     for cname in ("Validator", "SubRule"):
         for a in tt:
             for b in tt:
-                if a is b or json.dumps(common.jval(a[0]), default=repr) == json.dumps(common.jval(b[0]), default=repr):
+                if a is b or repr(a[0]) == repr(b[0]):       # (repr, not JSON: a tuple and a list are different twins)
                     continue
                 # same rule, same position: only the Python type of the constraint differs
                 ka, kb = json.dumps(common.jval(a[0]), default=repr), json.dumps(common.jval(b[0]), default=repr)
